@@ -179,3 +179,42 @@ Proof.
   intros Ht Hp Hst. rewrite <- (app_nil_r ops).
   rewrite (ltrace_prop _ _ _ _ _ Ht (psources_items c f n Hp) Hst). reflexivity.
 Qed.
+
+(* when the run stopped on a failed mount call, everything before that call is well paired *)
+Lemma itrace_prop_failed ks ksc its ops ks' ksc' st :
+  itrace ks ksc its ops ks' ksc' st -> forallb psrc_ok its = true -> st = TFailed ->
+  exists pre o, ops = pre ++ [o]
+    /\ forall rest, C01.propagation_ok (pre ++ rest) = C01.propagation_ok rest.
+Proof.
+  induction 1 as [ks ksc|ks ksc its|ks ksc it its ops ks' ksc' st Hc Ht IH
+                 |ks ksc it its f ks1 ops ks' ksc' st Hc Hk Ht IH|ks ksc it its f Hc Hk];
+    cbn [forallb]; intros Hok Hst; try discriminate.
+  - apply andb_true_iff in Hok as [_ Hok]. now apply IH.
+  - apply andb_true_iff in Hok as [H1 Hok]. destruct (IH Hok Hst) as (pre & o & -> & Hp).
+    exists (mops it true ++ pre), o. split; [now rewrite app_assoc|].
+    intros rest. rewrite <- app_assoc, prop_mops_true by exact H1. apply Hp.
+  - exists [], (op1 it). split; reflexivity.
+Qed.
+
+Lemma ltrace_prop_failed ks ls ops ks' st :
+  ltrace ks ls ops ks' st -> forallb (forallb psrc_ok) ls = true -> st = TFailed ->
+  exists pre o, ops = pre ++ [o]
+    /\ forall rest, C01.propagation_ok (pre ++ rest) = C01.propagation_ok rest.
+Proof.
+  induction 1 as [ks|ks ls|ks its ls ops1 ks1 ksc1 ops2 ks2 st Hi Hl IH|ks its ls ops1 ks1 ksc1 st Hst Hi];
+    cbn [forallb]; intros Hok Hf; try discriminate.
+  - apply andb_true_iff in Hok as [H1 Hok]. destruct (IH Hok Hf) as (pre & o & -> & Hp).
+    exists (ops1 ++ pre), o. split; [now rewrite app_assoc|].
+    intros rest. rewrite <- app_assoc.
+    rewrite (itrace_prop _ _ _ _ _ _ _ Hi H1) by discriminate. apply Hp.
+  - apply andb_true_iff in Hok as [H1 Hok]. now apply (itrace_prop_failed _ _ _ _ _ _ _ Hi H1).
+Qed.
+
+Theorem propagation_of_trace_failed c f n ks ops ks' st :
+  ltrace ks (chain_items c f n) ops ks' st -> psources_rbind c (chain c f n) = true ->
+  st = TFailed -> C01.propagation_ok (removelast ops) = true.
+Proof.
+  intros Ht Hp Hst.
+  destruct (ltrace_prop_failed _ _ _ _ _ Ht (psources_items c f n Hp) Hst) as (pre & o & -> & Hpre).
+  rewrite removelast_last, <- (app_nil_r pre), Hpre. reflexivity.
+Qed.
